@@ -93,6 +93,15 @@ Theorem base58_roundtrip : forall bs, bytes_wf bs -> C18.Bech32.blen bs <= 132 -
   b58_decode (b58_encode bs) = Ok bs.
 Proof. exact b58_roundtrip_proof. Qed.
 
+(* pallas' wrapper decode_base58 (leading '1's handled outside the crate): same
+   round trip, and it never panics although the crate's decoder can *)
+Theorem pallas_base58_roundtrip : forall bs, bytes_wf bs -> C18.Bech32.blen bs <= 132 ->
+  pallas_decode_base58 (b58_encode bs) = Ok bs.
+Proof. exact pallas_b58_roundtrip_proof. Qed.
+Theorem byron_from_base58_never_panics : forall skip s,
+  is_panic (from_base58 skip pallas_decode_base58 s) = false.
+Proof. exact from_base58_never_panics. Qed.
+
 (* generic form kept: any base58 codec with that premise *)
 Theorem byron_base58_roundtrip_generic :
   forall skip (enc : list Z -> list Z) (dec : list Z -> outcome (list Z)),
@@ -109,7 +118,7 @@ Qed.
 (* CLOSED: addresses whose encoding has at most 132 bytes round-trip through base58 *)
 Theorem byron_base58_roundtrip : forall skip p, bytes_wf p ->
   len (byron_to_vec (from_decoded p)) <= 132 ->
-  from_base58 skip b58_decode (to_base58 b58_encode (from_decoded p)) = Ok (from_decoded p).
+  from_base58 skip pallas_decode_base58 (to_base58 b58_encode (from_decoded p)) = Ok (from_decoded p).
 Proof. exact byron_base58_closed. Qed.
 
 Theorem byron_base58_accepted_implies_crc :
@@ -137,7 +146,8 @@ Proof. split; vm_compute; reflexivity. Qed.
 Example base58_vectors :
   b58_decode [52;107;56] = Ok [49;49] /\ b58_encode [49;49] = [52;107;56] /\
   b58_encode [0;0;1] = [49;49;50] /\
-  b58_decode (repeat 49 133) = Panic P_SUB /\ b58_decode [48] = Err E_B58.
+  b58_decode (repeat 49 133) = Panic P_SUB /\ b58_decode [48] = Err E_B58 /\
+  pallas_decode_base58 (repeat 49 133) = Err E_B58 /\ pallas_decode_base58 (repeat 49 132) = Ok (repeat 0 132).
 Proof. repeat split; vm_compute; reflexivity. Qed.
 Example vector3_now_rejected_and_good_accepted :
   from_bytes skip_item vector3_bad = Err E_BYRON_CBOR /\
